@@ -165,12 +165,36 @@ Proof.
     + intros [[rs2 its2] a2] [rs2' tr2] [E1 E2]. cbn [fst snd] in *. subst. reflexivity.
 Qed.
 
+(* ------------------------------------------------------------------ the public entry points *)
+Lemma src_roots_f64 (p : list R) (refine : bool) :
+  s_roots_f64 RA p refine = let* r := poly_solve RA (map (fun c => mkk RA c zero) p) refine in Ok (fst r).
+Proof.
+  unfold s_roots_f64, for_. rewrite Nat.sub_0_r.
+  pose proof (for_from_tab (fun i => let* c := rd p i in Ok (mkk RA c zero)) (repeat (@zero (KK RA)) (length p)) []) as E.
+  rewrite repeat_length in E. cbn [length app] in E.
+  rewrite (for_from_ext _ _ _ (fun i v => let* y := (let* c := rd p i in Ok (mkk RA c zero)) in upd v i y)).
+  2:{ intros i v _. rewrite bind_assoc. reflexivity. }
+  rewrite E, mapM_rd1, mapM_pure. reflexivity.
+Qed.
+
+Lemma src_roots_cplx (p : list K) (refine : bool) :
+  s_roots_cplx RA p refine = let* r := poly_solve RA p refine in Ok (fst r).
+Proof.
+  unfold s_roots_cplx, for_. rewrite Nat.sub_0_r.
+  pose proof (for_from_tab (rd p) (repeat (@zero (KK RA)) (length p)) []) as E.
+  rewrite repeat_length in E. cbn [length app] in E.
+  rewrite E, mapM_rd_all. reflexivity.
+Qed.
+
 Definition model_is_source_Roots : Prop :=
   (forall a b c : K, s_quadratic_solve RA a b c = quadratic_solve RA a b c) /\
   (forall a b c d : K, s_cubic_solve RA a b c d = cubic_solve RA a b c d) /\
   (forall (a : list K) (x : K) (its : nat), s_laguer RA a x its = let* l := laguer RA a x in Ok (a, lx l, liters l)) /\
-  (forall (coeffs : list K) (refine : bool), s_poly_solve RA coeffs refine = let* r := poly_solve RA coeffs refine in Ok (fst r)).
+  (forall (coeffs : list K) (refine : bool), s_poly_solve RA coeffs refine = let* r := poly_solve RA coeffs refine in Ok (fst r)) /\
+  (forall (p : list R) (refine : bool),
+     s_roots_f64 RA p refine = let* r := poly_solve RA (map (fun c => mkk RA c zero) p) refine in Ok (fst r)) /\
+  (forall (p : list K) (refine : bool), s_roots_cplx RA p refine = let* r := poly_solve RA p refine in Ok (fst r)).
 Lemma model_is_source_Roots_lemma : model_is_source_Roots.
-Proof. exact (Coq.Init.Logic.conj src_quadratic_solve (Coq.Init.Logic.conj src_cubic_solve (Coq.Init.Logic.conj src_laguer src_poly_solve))). Qed.
+Proof. exact (Coq.Init.Logic.conj src_quadratic_solve (Coq.Init.Logic.conj src_cubic_solve (Coq.Init.Logic.conj src_laguer (Coq.Init.Logic.conj src_poly_solve (Coq.Init.Logic.conj src_roots_f64 src_roots_cplx))))). Qed.
 
 End SrcEqRoots.
